@@ -79,3 +79,8 @@ def egc_verdict(model_obs, wanted=None):
 
 
 EGC_STREAM = {'name': 'invariant', 'component': 'egs', 'config': 'default', 'quick': 150, 'thorough': 3000, 'gen_extra': []}
+
+
+def is_lazy_case(pc):
+    """the case carries the (lazy) marker: nothing is observed between its operations (whatever stream it runs in, e.g. from the corpus)"""
+    return isinstance(pc, list) and any(isinstance(x, list) and len(x) == 1 and x[0] == 'lazy' for x in pc)
